@@ -13,6 +13,7 @@ def jobs(tier):
         js.append(B.framing(Job, d, cfg, t))
         js.append(B.handle_token(Job, d, cfg, "quick" if d == 5 else t))     # PDP11: the 0xC8 rule (cut-off operand)
         js.append(B.decode_line(Job, d, cfg, t))
+        js.append(B.count(Job, d, cfg, "quick" if d == 0 else "thorough"))   # the loop-keyword counter reads the line's own bytes only (nothing left over from an earlier line or file)
         js.append(B.decode_file(Job, d, cfg, t))
     js.append(B.wrapped_main(Job, cfg))     # (iii) per-file independence: fresh decoder, fresh indent, frame
     return js
